@@ -16,6 +16,20 @@ TLCJ = "java"
 
 # ---------------------------------------------------------------------------------------------
 # generic helpers
+class _Skip:
+    distinct = generated = depth = 0
+    coverage = {}
+
+    def summary(self):
+        return {"skipped": True}
+
+
+def design_run(specdir, module, cfgbytes, **kw):
+    if SKIP_DESIGN:
+        return _Skip()
+    return vlib.tlc_must_pass(specdir, module, "run.cfg", extra_files={"run.cfg": cfgbytes}, **kw)
+
+
 class Phase:
     """wall-clock of the phases of a check, recorded in the evidence"""
     def __init__(self, run, name):
@@ -54,8 +68,13 @@ def trace_cfg(P, S, keepexp=False, extra_consts=None):
     return cfg_text(c, spec="TraceSpec", extra="CONSTRAINT HWM\nPOSTCONDITION TraceAccepted")
 
 
+SKIP_DESIGN = os.environ.get("VERIF_SKIP_DESIGN") == "1"   # development / mutation testing only
+
+
 def run_bug_cfgs(run, specdir, module, names, workers=2):
     """seeded-bug self tests, in parallel threads (each is a short TLC run)"""
+    if SKIP_DESIGN:
+        return
     res, errs = {}, []
 
     def one(n):
@@ -250,8 +269,7 @@ def design_points(run):
     quick = run.tier == "quick"
     consts = dict(P=2, S=1, Bug="none", MaxN=(2 if quick else 3), Seqs=2, Kinds=({1} if quick else {0, 1}), MaxOps=1000000, Emit=False)
     with Phase(run, "design"):
-        r = vlib.tlc_must_pass(SPECDIR, "InternalIterGen", "run.cfg", workers=WORKERS, timeout=2400, heap="10g",
-                               extra_files={"run.cfg": cfg_text(consts, invariants=["Inv"], view="View")})
+        r = design_run(SPECDIR, "InternalIterGen", cfg_text(consts, invariants=["Inv"], view="View"), workers=WORKERS, timeout=2400, heap="10g")
     run.add_design("InternalIterGen exhaustive (P=2,S=1: 4 user keys; seqnums 1..2; kinds %s; <=%d entries; every bound pair; "
                    "every in-contract call sequence)" % (sorted(consts["Kinds"]), consts["MaxN"]), r)
     with Phase(run, "seeded_bugs"):
@@ -385,8 +403,7 @@ def run_c27(run):
     # the oracle of this fault enumeration is the C25 list model: its own properties, small scope
     consts = dict(P=2, S=1, Bug="none", MaxN=2, Seqs=2, Kinds={1}, MaxOps=1000000, Emit=False)
     with Phase(run, "design"):
-        r = vlib.tlc_must_pass(SPECDIR, "InternalIterGen", "run.cfg", workers=WORKERS, timeout=2400, heap="10g",
-                               extra_files={"run.cfg": cfg_text(consts, invariants=["Inv"], view="View")})
+        r = design_run(SPECDIR, "InternalIterGen", cfg_text(consts, invariants=["Inv"], view="View"), workers=WORKERS, timeout=2400, heap="10g")
     run.add_design("InternalIterGen exhaustive (oracle sanity: 4 user keys, seqnums 1..2, <=2 entries)", r)
     with Phase(run, "seeded_bugs"):
         run_bug_cfgs(run, SPECDIR, "InternalIterGen", ["UpperInclusive", "SeekLTInclusive"])
@@ -445,6 +462,80 @@ def run_c27(run):
 
 
 # ---------------------------------------------------------------------------------------------
+# C33: merged iteration over levels
+MG_BUGS = ["Merge_RangeDelLE", "Merge_NoLevelInvariant", "Merge_SnapshotIgnored"]
+MG_P, MG_S = 3, 1
+MD_P, MD_S = 4, 2
+
+
+def run_c33(run):
+    quick = run.tier == "quick"
+    vlib.sany(SPECDIR, "MergeGen")
+    vlib.sany(SPECDIR, "InternalIterTrace")
+    consts = dict(P=2, S=1, Bug="none", NL=2, MaxW=(2 if quick else 3), Kinds={1}, MaxOps=0, Emit=False)
+    with Phase(run, "design"):
+        r = design_run(SPECDIR, "MergeGen", cfg_text(consts, invariants=["Inv"], view="View"), workers=WORKERS, timeout=2400, heap="10g")
+    run.add_design("MergeGen exhaustive (4 user keys, 2 levels, <=%d writes newest-first incl. shared seqnums: points and range tombstones, "
+                   "file split none/middle, every snapshot)" % consts["MaxW"], r)
+    with Phase(run, "seeded_bugs"):
+        run_bug_cfgs(run, SPECDIR, "MergeGen", MG_BUGS)
+        run_bug_cfgs(run, SPECDIR, "InternalIterGen", ["UpperInclusive", "SeekLTInclusive"])
+    binp = vlib.build_driver(".", name="root")
+    tdir = vlib.scratch("verif.sst33.")
+    sf = os.path.join(tdir, "scripts.jsonl")
+    gc = dict(P=MG_P, S=MG_S, Bug="none", NL=3, MaxW=5, Kinds={0, 1, 2}, MaxOps=12, Emit=True)
+    with Phase(run, "generate"):
+        scripts = sim_scripts(run, SPECDIR, "MergeGen", "sim.cfg", cfg_text(gc, invariants=["EmitInv"]),
+                              walks=(60 if quick else 1200), depth=60, seed=run.seed, label="MergeGen/simulate")
+    with open(sf, "w") as o:
+        for sc in scripts:
+            o.write(json.dumps(sc) + "\n")
+    env = dict(VERIF_OUT=tdir, VERIF_SEED=str(run.seed), VERIF_TIER=run.tier, VERIF_SCRIPTFILE=sf, VERIF_GP=str(MG_P), VERIF_GS=str(MG_S),
+               VERIF_P=str(MD_P), VERIF_S=str(MD_S), VERIF_LAYOUTS=str(40 if quick else 500), VERIF_OPS=str(40 if quick else 60))
+    with Phase(run, "driver"):
+        out, info = run_go(binp, "TestVSstC33", env)
+    if "DRIVER-PANIC" in out:
+        run.cov["panics"] = [l for l in out.splitlines() if l.startswith("DRIVER-PANIC")][:5]
+    gfiles = sorted(glob.glob(os.path.join(tdir, "c33g-*.ndjson")))
+    dfiles = sorted(glob.glob(os.path.join(tdir, "c33d-*.ndjson")))
+    if not gfiles or not dfiles:
+        raise vlib.Inconclusive("no traces produced")
+    vocab = {"it", "fail"}
+    with Phase(run, "validate"):
+        ev1, rej1 = validate_files(run, SPECDIR, "InternalIterTrace", "t.cfg", trace_cfg(MG_P, MG_S), gfiles, vocab, "C33/tlc-generated",
+                                   sig_fields=("op", "o"))
+        ev2, rej2 = validate_files(run, SPECDIR, "InternalIterTrace", "t.cfg", trace_cfg(MD_P, MD_S), dfiles, vocab, "C33/driver-generated",
+                                   sig_fields=("op", "o"))
+    if rej1 + rej2 == 0:
+        with Phase(run, "binding_demo"):
+            small = os.path.join(tdir, "demo.nd")
+            with open(small, "w") as o:
+                for i, l in enumerate(open(dfiles[0])):
+                    if i < 2000:
+                        o.write(l)
+            binding_demo(run, SPECDIR, "InternalIterTrace", "t.cfg", trace_cfg(MD_P, MD_S), [small], corrupt_it, droppable_it)
+    evals, distinct = seg_stats(gfiles + dfiles)
+    run.cov["evaluations"] = evals
+    run.cov["distinct_nontrivial"] = distinct
+    run.cov["rule"] = ("evaluations = positioning calls on the real mergingIter/levelIter (v1) and mergingIterV2/levelIterV2 (v2) stacks whose result "
+                       "TLC compared with MergedVisible; a case = one (layout, table configuration, stack) triple; non-trivial when the layout has "
+                       ">= 2 files/entries and the case has >= 5 calls of which >= 2 return an entry; distinct by content hash")
+    run.cov["trace_events"] = ev1 + ev2
+    run.cov["tlc_generated_layouts_replayed"] = len(scripts)
+    run.cov["driver"] = info
+    run.sample({"trace": os.path.basename(dfiles[0]), "first_events": [json.loads(l) for l in list(open(dfiles[0]))[:4]]})
+    run.assumptions += [
+        "levels are built from real sstables on a MemFS (formats Pebblev1/v4/newest, block sizes 1..4096); 1-4 levels, some as L0 sublevels; "
+        "tombstones are fragmented and clipped to their file as compactions write them; every layout is checked by TLC against the level invariant "
+        "(LevelInvariant in InternalIter.tla) before its results are decided",
+        "the merging iterator skips keys invisible at the snapshot and keys shadowed by a newer visible range tombstone; all other internal keys "
+        "(every kind, every version) are returned in internal-key order",
+        "calls are issued only inside the documented caller contract (as C25); bounds are given to the merging iterator and the level iterators alike",
+        "batch and memtable levels are not part of these layouts (covered at DB level by the KV engine)",
+    ]
+
+
+# ---------------------------------------------------------------------------------------------
 C_NOTE = ("Trusted: TLC; InternalIter.tla as the statement of intended behaviour; the Go driver's rank<->bytes and value id<->bytes "
           "mappings and its recording of results. Bounded: small key universes, tables of <= 24 entries, the enumerated option matrix.")
 C_TECH = "TLA+ list model (InternalIter.tla) + TLC-generated and driver-enumerated inputs run on the real code + TLC trace validation of every result"
@@ -470,4 +561,14 @@ def REGISTER(reg):
         C_TECH, "DESIGN 6/C27", level="fault_enumeration", engine="sst")
 
 
-SPEC_MODULES = [("InternalIter", "InternalIterGen"), ("InternalIter", "InternalIterTrace")]
+    reg("C33", "Merged internal iteration over levels matches the model", run_c33,
+        "Multi-level layouts (points of every kind, range tombstones, shared sequence numbers, snapshots) generated by TLC simulation of MergeGen "
+        "and by a seeded driver (per-key seqnum thresholds = arbitrary compaction histories) are materialised as real sstables; the real "
+        "mergingIter+levelIter and mergingIterV2+levelIterV2 stacks are driven through First/Last/SeekGE/SeekLT/SeekPrefixGE/Next/Prev/NextPrefix "
+        "with bounds and direction switches; TLC checks each layout against the LSM level invariant and decides every returned key against "
+        "MergedVisible. The model's deletion rules (per-level mechanism rule = declarative rule; file splits irrelevant) are checked exhaustively "
+        "in a small scope with seeded-bug self tests.",
+        C_NOTE, C_TECH, "DESIGN 6/C33", engine="sst")
+
+
+SPEC_MODULES = [("InternalIter", "MergeGen"), ("InternalIter", "InternalIterGen"), ("InternalIter", "InternalIterTrace")]
